@@ -5,13 +5,13 @@ package main
 
 import "fmt"
 
-func lit(n int) Expr        { return Lit{fmt.Sprint(n)} }
-func v(n string) Expr       { return Var{n} }
-func bin(op string, l, r Expr) Expr { return Bin{op, l, r} }
-func call(f string, a ...Expr) Expr { return Call{f, a} }
-func callfn(f Expr, a ...Expr) Expr { return CallFn{f, a} }
+func lit(n int) Expr                  { return Lit{fmt.Sprint(n)} }
+func v(n string) Expr                 { return Var{n} }
+func bin(op string, l, r Expr) Expr   { return Bin{op, l, r} }
+func call(f string, a ...Expr) Expr   { return Call{f, a} }
+func callfn(f Expr, a ...Expr) Expr   { return CallFn{f, a} }
 func clo(body Expr, ps ...Param) Expr { return Clo{ps, body} }
-func pInt(n string) Param   { return Param{n, "Int"} }
+func pInt(n string) Param             { return Param{n, "Int"} }
 
 type shape struct {
 	name   string
